@@ -455,6 +455,12 @@ BREAKING = [
      "        self._validate_names_in_expression()\n", "", ["C09", "C10"]),
     ("command line: positionals matched before an option is seen", "cutplace/applications.py",
      "        args = parser.parse_intermixed_args(argv[1:])", "        args = parser.parse_args(argv[1:])", ["C18"]),
+    ("range limits: digit grouping with underscores accepted again", "cutplace/ranges.py",
+     '        if "_" in value:\n            # Python source code can use underscores to group digits, numbers in a CID can not.\n            raise ValueError("underscore in number")\n        # Note: base 0',
+     "        # Note: base 0", ["C01", "C11"]),
+    ("Integer cells: digit grouping with underscores accepted again", "cutplace/fields.py",
+     '            if "_" in value:\n                # Python source code can use underscores to group digits, numbers in data can not.\n                raise ValueError("underscore in number")\n            value_as_int = int(value)',
+     "            value_as_int = int(value)", ["C02"]),
     ("DecimalRange: only NaN refused", "cutplace/ranges.py",
      "        if not value_as_decimal.is_finite():", "        if value_as_decimal.is_nan():", ["C02"]),
     ("__exit__: end checks replace the pending error", "cutplace/validio.py",
